@@ -370,9 +370,16 @@ class CatalogMachine(Machine):
         a = st.actors[k]
         n = len(a.rows)
         form = rng.pick(['int', 'int', 'slice', 'list', 'bool', 'key',
-                         'keys'])
-        if form == 'int':
+                         'keys', 'boollist', 'array', 'npint'])
+        if form in ('int', 'npint'):
             arg = rng.randrange(-n, n)
+        elif form == 'array':
+            m = rng.randint(1, min(n, 4))
+            arg = [rng.randrange(-n, n) for _ in range(m)]
+        elif form == 'boollist':
+            arg = [rng.chance(0.5) for _ in range(n)]
+            if not any(arg):
+                arg[rng.randrange(n)] = True
         elif form == 'slice':
             start = rng.pick([None, 0, rng.randrange(n)])
             stop = rng.pick([None, n, rng.randint(1, n)])
@@ -560,12 +567,26 @@ class CatalogMachine(Machine):
                                 'indexing a scalar catalog did not raise')
             return
         pos = None
-        if form == 'int':
+        if form in ('int', 'npint'):
             if not (-n <= arg < n):
                 raise Inapplicable('index out of range')
             pos = [range(n)[arg]]
             scalar = True
-            out = call(lambda: cat[arg])
+            idx = np.int64(arg) if form == 'npint' else arg
+            out = call(lambda: cat[idx])
+        elif form == 'array':
+            if any(not (-n <= i < n) for i in arg):
+                raise Inapplicable('index out of range')
+            pos = [range(n)[i] for i in arg]
+            scalar = False
+            out = call(lambda: cat[np.array(arg)])
+        elif form == 'boollist':
+            # a boolean mask given as a plain Python list
+            if len(arg) != n:
+                raise Inapplicable('mask length')
+            pos = [i for i, b in enumerate(arg) if b]
+            scalar = False
+            out = call(lambda: cat[[bool(b) for b in arg]])
         elif form == 'slice':
             sl = slice(*arg)
             pos = list(range(n)[sl])
@@ -625,7 +646,7 @@ class CatalogMachine(Machine):
         ncached = len(child.cached_at_birth & set(st.props))
         if ncached >= 10:
             st.stats.probe('index_with_ge10_cached_properties')
-        if form in ('list', 'bool'):
+        if form in ('list', 'bool', 'boollist', 'array'):
             st.stats.probe('fancy_index')
         # the child must present its extras right away
         if self.variant == 'source':
